@@ -93,6 +93,7 @@ ReachIds(prog, todo, done) ==
 \* does the pair (s, t) need the fallible / context-taking extend function E somewhere (not descending into named types)?
 RECURSIVE NeedsE(_,_)
 NeedsE(s, t) == IF (s = INT /\ t = STR) \/ s.k = "meth" THEN TRUE
+                ELSE IF s.k # "ptr" /\ t.k = "ptr" THEN NeedsE(s, t.e)
                 ELSE IF s.k = "ptr" THEN NeedsE(s.e, TE(t))
                 ELSE IF s.k = "slice" THEN NeedsE(s.e, t.e)
                 ELSE IF s.k = "map" THEN NeedsE(s.key, t.key) \/ NeedsE(s.e, t.e)
@@ -111,7 +112,8 @@ GenOK(prog) == UnderOK(prog) /\ ~(UsesExt(prog) /\ prog.extErr /\ ~prog.rootErr)
 RECURSIVE SMapN(_,_,_,_), Reached(_,_,_,_,_)
 \* C06: every int -> string position, at any depth, carries E's result (with the context passed unchanged)
 SMapN(prog, s, t, v) ==
-  IF s = INT /\ t = STR THEN Mark(prog, v)
+  IF s.k # "ptr" /\ t.k = "ptr" THEN [k |-> "p", e |-> SMapN(prog, s, t.e, v)]          \* a value becomes a non-nil pointer to its conversion
+  ELSE IF s = INT /\ t = STR THEN Mark(prog, v)
   ELSE IF prog.extId /\ s = STR /\ t = STR THEN MarkC(v)                   \* ... and Canon's at every string -> string position, map keys included
   ELSE IF s.k \in {"basic", "meth"} THEN v
   ELSE IF s.k = "map" THEN (IF v = Nil THEN Nil ELSE [k |-> "m", kv |-> {<<SMapN(prog, s.key, t.key, e[1]), SMapN(prog, s.e, t.e, e[2])>> : e \in v.kv}])
@@ -122,7 +124,8 @@ SMapN(prog, s, t, v) ==
        [k |-> "st", fs |-> [i \in DOMAIN tf |-> SMapN(prog, sf[i].t, tf[i].t, v.fs[i])]]
 \* C07: the injected faults a conversion of v must hit
 Reached(prog, s, t, v, faults) ==
-  IF (s = INT /\ t = STR) \/ s.k = "meth" THEN (IF prog.extErr /\ v.tok \in faults THEN {v.tok} ELSE {})
+  IF s.k # "ptr" /\ t.k = "ptr" THEN Reached(prog, s, t.e, v, faults)
+  ELSE IF (s = INT /\ t = STR) \/ s.k = "meth" THEN (IF prog.extErr /\ v.tok \in faults THEN {v.tok} ELSE {})
   ELSE IF s.k = "basic" THEN {}
   ELSE IF s.k = "map" THEN (IF v = Nil THEN {} ELSE UNION {Reached(prog, s.key, t.key, e[1], faults) \cup Reached(prog, s.e, t.e, e[2], faults) : e \in v.kv})
   ELSE IF s.k = "ptr" THEN (IF v = Nil THEN {} ELSE Reached(prog, s.e, TE(t), v.e, faults))
@@ -138,7 +141,8 @@ NoPath == <<<<"-">>>>
 FaultPath(prog, s, t, v, faults, path0, cont) ==
   LET start == ~cont /\ (s.k = "named" \/ (s.k = "ptr" /\ s.e.k = "named"))
       path == IF start THEN Append(path0, <<>>) ELSE path0 IN
-  IF (s = INT /\ t = STR) \/ s.k = "meth" THEN (IF prog.extErr /\ v.tok \in faults THEN path ELSE NoPath)
+  IF s.k # "ptr" /\ t.k = "ptr" THEN FaultPath(prog, s, t.e, v, faults, path, TRUE)
+  ELSE IF (s = INT /\ t = STR) \/ s.k = "meth" THEN (IF prog.extErr /\ v.tok \in faults THEN path ELSE NoPath)
   ELSE IF s.k = "basic" THEN NoPath
   ELSE IF s.k = "ptr" THEN (IF v = Nil THEN NoPath ELSE FaultPath(prog, s.e, TE(t), v.e, faults, path, s.e.k = "named"))
   ELSE IF s.k = "slice" THEN (IF v = Nil THEN NoPath ELSE FaultElems(prog, s.e, t.e, v.es, 1, faults, path))
